@@ -73,6 +73,16 @@ def arr_of(v, kind='real'):
     return SArr(Cell(lambda j: z3.Select(v, j), (DIM,), 'real'))
 
 
+def zero_outside(v):
+    """the Vec term v is a d-vector: 0 at every index outside [0, d)"""
+    vc = cur()
+    body = lambda j: z3.Implies(z3.Or(j < 0, j >= DIM), z3.Select(v, j) == 0)
+    if vc.fin is None:
+        j = z3.Int('oj!%d' % next(vc._counter))
+        return z3.ForAll([j], body(j))
+    return z3.And([body(z3.IntVal(j)) for j in range(-1, vc.fin + 1)])
+
+
 def ok_state(x):
     """the log-target value of a state that may be output: neither -inf nor nan"""
     return z3.And(x.tag != NINF, x.tag != NAN)
@@ -179,8 +189,25 @@ class _GlobalRandom:
         import numpy as np
         if not hasattr(np.random, name):
             raise OutOfSubset('numpy.random.%s' % name)
-        cur().oblige('frame[the global numpy generator is not read: np.random.%s]' % name, z3.BoolVal(False))
-        raise OutOfSubset('np.random.%s (global generator) is not modelled' % name)
+
+        def global_draw(*a, **kw):
+            # reading (or seeding) the process-wide generator: the result no longer depends on `seed` alone
+            vc = cur()
+            vc.oblige('frame[the global numpy generator is not touched: np.random.%s]' % name, z3.BoolVal(False))
+            if name == 'rand' and not a and not kw:
+                r = vc.fresh('global_rand', R)
+                vc.assume(r >= 0, r < 1)
+                return SReal(r)
+            if name == 'exponential' and not a and not kw:
+                r = vc.fresh('global_exponential', R)
+                vc.assume(r >= 0)
+                return SReal(r)
+            if name == 'randn' and len(a) == 1 and not kw:
+                return SArr.fresh('global_randn', (zi(a[0]),), 'real')
+            if name == 'seed':
+                return None
+            raise OutOfSubset('np.random.%s (global generator) is not modelled' % name)
+        return global_draw
 
 
 def inner(a, b):
@@ -469,6 +496,7 @@ class Nuts(Contract):
                 ('rows 0..k of samples are the recorded states SV(0..k)',
                  forall_range(0, k + 1, lambda r: forall_range(0, DIM, lambda j: smp.at(r, j) == z3.Select(SV(r), j), 'j'), 'r')),
                 ('every recorded state has a log-target that is neither -inf nor nan', forall_range(0, k + 1, lambda r: ok_state(TGT(SV(r))), 'r')),
+                ('every recorded state is a d-vector (0 outside [0, d))', forall_range(0, k + 1, lambda r: zero_outside(SV(r)), 'r')),
                 ('the current state (row k) has a log-target that is neither -inf nor nan', ok_state(TGT(row_vec(smp, k)))),
                 ('n_total >= 0, and > 0 after an iteration that is not the one that resets it (ii = n_adapt + 1)',
                  z3.And(nt >= 0, z3.Implies(z3.And(k >= 1, k != na + 1), nt > 0)))]
@@ -524,6 +552,8 @@ class Nuts(Contract):
                 ('returned row r is the recorded state SV(1 + r)',
                  forall_range(0, n, lambda r: forall_range(0, DIM, lambda j: result.at(r, j) == z3.Select(SV(1 + r), j), 'j'), 'r')),
                 ('no returned state has log-target -inf or nan', forall_range(0, n, lambda r: ok_state(TGT(SV(1 + r))), 'r')),
+                ('the recorded states are d-vectors (0 outside [0, d)): by extensionality row r IS the vector SV(1 + r)',
+                 forall_range(0, n, lambda r: zero_outside(SV(1 + r)), 'r')),
                 ('only the local RandomState(seed) was created and read', z3.BoolVal(len(self._rs) == 1))]
 
     def witness(self, vc, model, ob):
